@@ -42,6 +42,7 @@ def shards(tier, seed):
 
 
 def configure(cfg, tier):
+    cfg.simplify_div = True
     cfg.incremental_first = True
     cfg.branch_timeout_ms = 3000
     cfg.max_paths = 600
